@@ -26,7 +26,7 @@ def private_array_line(rng):
         k = rng.choice([i for i, l in enumerate(out) if l.startswith("#S ")])
         out[k] = out[k].replace("#UCELL", "#XCELL")                  # malformed (no cell): must fail in the same way in every thread
     out.append("#EOF\n")
-    return calls.line("@private_array", "iss", (rng.randint(0, 6), "".join(out), rng.choice(names + ["zz_private_entry", "absent"])))
+    return calls.line("@private_array", "iss", (rng.randint(0, 6), "".join(out), rng.choice(names + ["AA_private_entry", "absent"])))
 
 
 def run_mix(st, exe, lines, T, sdir, tag, rng, mi):
